@@ -48,6 +48,8 @@ def judge_download(case):
         return False, "no end recorded"
     if end["status"] == "panic":
         return False, "real code panicked: %s" % end.get("err")
+    if end["status"] == "hang":
+        return False, "hostile input wedges the sync loop: %s" % end.get("err")
     if st["e"] == "SStart":
         blocks = [b["id"] for b in st["stream"] if b["id"] != "nil"]
         if end["status"] != "ok":
@@ -122,6 +124,9 @@ def judge_sync(case):
     if not e["validBest"] or not e["storeOK"]:
         return False, "after Sync (%s) best/store is not the valid imported prefix" % e["case"]
     if e["prefers"] and not e["converged"]:
+        if e.get("stalled"):
+            return False, ("Sync never adopted the head of a connected peer that its fork choice prefers%s (%s): 20 s = ten sync timer "
+                           "ticks after the handshake" % (" (exact total-score tie, smaller id)" if e.get("tie") else "", e["case"]))
         return False, "Sync finished without reaching the peer's better head (%s)" % e["case"]
     return True, "peer not dropped as Sync.tla says"
 
@@ -157,6 +162,8 @@ def signature(case, why):
         return "ancestor-wrong"
     if case[-1].get("status") == "panic":
         return "panic:handleBlockStream"
+    if case[-1].get("status") == "hang":
+        return "download-hangs:handler-error-with-full-pipeline"
     if h["e"] == "SStart":
         return "stream:" + str(case[-1].get("status"))
     if h["e"] == "BStart":
@@ -164,6 +171,8 @@ def signature(case, why):
         return "download:%s:%s" % (parts[2].split("@")[0] if len(parts) > 2 else "?", case[-1].get("status"))
     if h["e"] == "Conn" and len(case) > 1:
         return "message:%s:%s" % (case[1].get("code"), case[1].get("cls"))
+    if h.get("tie") and h.get("prefers") and not h.get("converged"):
+        return "sync:tie-not-followed"
     return "sync:" + str(h.get("hostile", ""))
 
 
